@@ -131,14 +131,14 @@ var memOps = []mop{
 	{"DS", 223, "cdna3"}, {"DS", 255, "cdna3"},
 }
 
-var execPats = []uint64{0xffffffffffffffff, 0xaaaaaaaa55555555, 0x8000000000000001, 0, 0x00000000ffff0000}
+var execPats = []uint64{0xffffffffffffffff, 0xaaaaaaaa55555555, 1 << 63, 0, 1, 0x80000000ffff0001, 0, 1 << 63}
 
 func setV(c *Case, lane, idx int, v uint32) { c.Set = append(c.Set, RegVal{lane, idx, v}) }
 func setS(c *Case, idx int, v uint32)       { c.Set = append(c.Set, RegVal{-1, idx, v}) }
 
 // memCase builds case number k of a memory opcode; k < memGrid are the
 // deterministic corner cases, later ones are random.
-const memGrid = 6
+const memGrid = 8
 
 func memCase(alu string, m mop, r *vh.Rng, k int) Case {
 	c := Case{Alu: alu, Fill: r.U64(), Class: "mem-grid"}
@@ -148,6 +148,9 @@ func memCase(alu string, m mop, r *vh.Rng, k int) Case {
 		if r.Bool() {
 			c.Pre.EXEC = r.U64()
 		}
+	}
+	if e := c.Pre.EXEC; e&(e-1) == 0 {
+		c.Sparse = true // at most one active lane: probe the named VGPRs in a few lanes only
 	}
 	switch m.fmt {
 	case "SMEM":
